@@ -60,7 +60,8 @@ THEOREMS = {
                                 ("BS.Props.C10", "BS.Props.C10.at_most_2n")]),
     "C13": (["BS.Props.C13"], [("BS.Props.C13", "BS.Props.C13.first_n_is_prefix"),
                                 ("BS.Props.C13", "BS.Props.C13.first_n_of_any_range"),
-                                ("BS.Props.C13", "BS.Props.C13.processor_takes_prefix")]),
+                                ("BS.Props.C13", "BS.Props.C13.processor_takes_prefix"),
+                                ("BS.Props.C13", "BS.Props.C13.paging_visits_every_line_once")]),
     "C16": (["BS.Props.C16"], [("BS.Props.C16", "BS.Props.C16.pushData_appends"),
                                 ("BS.Props.C16", "BS.Props.C16.pushData_error_no_state"),
                                 ("BS.Props.C16", "BS.Props.C16.cacheProcess_appends")]),
@@ -178,7 +179,7 @@ LEVEL_TEXT = {
  "C10": "Kernel-checked on the model: read_n without caches, for EVERY pair of bounds and n >= 1 (files up to 2^32 lines): uniform bucket means with one bucket size b >= 1 of exactly the lines a full read of the range returns, at most 2n of them, no overflow (read_n_of_any_range, sampler_is_bucket_means, at_most_2n). The resampler is the harness's integer resampler over the library's own u64 ResampleState; the generic resampler contract is an assumption.",
  "C11": "Kernel-checked: estimate_lines cannot fault and its unreachable! arm is unreachable for any index contents (estimate_total, unreachable_arm); the read tail after level selection is C10's. That the selected level is one of the stored levels is by construction of read_n; transparency w.r.t. the decoded cache content, strictly increasing in-bounds timestamps and <= 2n are checked differentially against every stored level (judge ~readnc), incl. caches longer in bytes than finer ones.",
  "C12": "Kernel-checked on the model under the session invariant: len() = number of accepted lines, range() = first/last timestamp, last time = last line's timestamp, payload size constant; byte-size formula (len_is_count, range_is_first_last, size_formula). After repair / rebuild the invariant is re-established by C04/C05's open theorems (data level). last_line() through the API and is_empty are differential.",
- "C13": "Kernel-checked on the model: read_first_n(n >= 1, range) for EVERY pair of bounds returns the first min(n,k) of the k entries read_all(range) returns (first_n_of_any_range, processor_takes_prefix). The paging loop (visits every line once) is differential only (page op for page sizes 1..len+1).",
+ "C13": "Kernel-checked on the model: read_first_n(n >= 1, range) for EVERY pair of bounds returns the first min(n,k) of the k entries read_all(range) returns (first_n_of_any_range, processor_takes_prefix), and the paging loop of examples/read.rs (continue one past the last timestamp seen) ends within len+3 rounds having collected exactly the history, in order, for EVERY page size n >= 1 (paging_visits_every_line_once). Differential: first-n vs full reads for random ranges, page op for page sizes 1..len+1.",
  "C14": "Kernel-checked on the model for EVERY pair of bounds: n_lines_between is 0 / a range error iff no entry is in range, else k + lines_per_metainfo * m with m <= k sections opened by entries in range (count_consistent, range_bytes).",
  "C15": "Kernel-checked: push_data keeps data file = header ++ encode(history) where encode opens a section for the first line and iff the distance to the last full timestamp exceeds 65534 \u2014 a pure function of header and accepted lines; size formula; after any open the file is again canonical (C04/C05) (push_keeps_canonical, size_formula, section_rule).",
  "C16": "Kernel-checked for the write path: push_data and the cache's process only append to data and index files (pushData_appends, cacheProcess_appends). That reads/counts/accessors never write is true of the model by construction (pure functions) and is carried by the differential file audit: bsrun snapshots every file before and after every call and the change class (same/append/other) is compared with the model's and with the rule.",
